@@ -589,7 +589,7 @@ known_signature(const json& c)
     {
       const json& lg = c.at("lgP");
       if (lg.at(lg.size() - 1).get<int>() == 1)
-        return "C19:F4:ArrayFilterUsingRealDFTWithPadding with padded length 2 in the last dimension";
+        return "C19:F4:inverse real-data transform with last-dimension length 2";
     }
   if (kind == 6)
     for (std::size_t a = 0; a < 3; ++a)
